@@ -717,7 +717,7 @@ func (b *backend) Put(w http.ResponseWriter, r *http.Request) error {
 	}
 
 	// TODO: check CALDAV:max-resource-size precondition
-	cal, err := ical.NewDecoder(r.Body).Decode()
+	cal, err := decodeCalendar(r.Body)
 	if err != nil {
 		// TODO: send CALDAV:valid-calendar-data error
 		return internal.HTTPErrorf(http.StatusBadRequest, "caldav: failed to parse iCalendar: %v", err)
